@@ -90,6 +90,7 @@ def plan(ctx):
     m = 40 if tier == "quick" else 1500
     caps = [("cap%d" % i, gen_proc.capacity_history(rng)) for i in range(m)]
     caps += [("rcl%d" % i, gen_proc.reconnect_limits_history(rng)) for i in range(m // 2)]
+    caps += [("applimit%d" % i, gen_proc.app_limit_history(rng)) for i in range(1 if tier == "quick" else 6)]
     return [("corpus", corpus(ID)), ("gen", seqs), ("proc", caps)]
 
 
